@@ -400,15 +400,20 @@ PROPS = {
         # (12*(n/16) in thorough tier) on top of ~850 mandatory ones and each shard emits its 1/16 of the plan.
         # Inputs whose declared count equals a documented limit make the REAL decoder allocate ~1.2 GB (decodes are serialised
         # machine-wide by a flock slot) and cost ~10 s in the Lean interpreter: capped at 2 per type (12 in thorough tier).
-        "translators": ["translator_c15", "translator_c15b"],
-        "generators": [("c15", 4800, 16000)],
-        "modules": ["S2.DecoderIR", "S2.Generated.DecoderIR", "S2.CellID"],
+        "translators": ["translator_c15", "translator_c15b", "translator_c06"],
+        "generators": [("c15", 4800, 16000), ("c15usable", 1600, 16000)],
+        "modules": ["S2.DecoderIR", "S2.Generated.DecoderIR", "S2.CellID", "S2.Codec.Prim", "S2.Codec.Points", "S2.Codec.Types",
+                    "S2.ShapesBase", "S2.Shapes", "S2.ShapesLoops", "S2.Generated.ShapeAccessors", "S2.Generated.DecodeFns"],
         "rule": "valid encodings of every type and both polygon formats (built with the public API), then: truncation at every "
                 "prefix length, single / multiple bit flips, length-field substitution (0, 1, limit, limit+1, 2^31, 2^32-1, 2^32, 2^40, "
                 "2^63, 2^63+5, 2^64-1) at the known count fields and blindly at every offset as uint32 / uint64 / spliced uvarint, "
                 "random bytes, random bytes after a valid header, count=0 edge cases, four fixed inputs with NaN / Inf vertex "
                 "coordinates (known finding D21); every input is decoded by the real code in a child process (RLIMIT_AS, GOMEMLIMIT, "
-                "timeout, one retry of a timeout) and, when decoding succeeds, queried; non-trivial = every line (each is a distinct "
+                "timeout, one retry of a timeout) and, when decoding succeeds, queried; generator c15usable (op c15shape): polygons of both formats with 0..40 loops in every "
+                "arrangement of zero- / one- / two-vertex loops (all, first, last, adjacent, alternating; depth bit 63; bound bit set / not set) across the "
+                "12-loop threshold of the two search paths, then random lossless polygons — the model decodes the SAME bytes, builds initEdgesAndIndex of the "
+                "decoded loops and the regenerated accessors' outputs are compared with the real accessors of the value Decode returned "
+                "(NumEdges, NumChains, every Edge / Chain / ChainPosition / ChainEdge; propfail query-panic | usable:<clause> | contract:<clause>); non-trivial = every line (each is a distinct "
                 "byte string run through both the real decoder and the IR interpreter); distinct = distinct (type, bytes)",
         "nontrivial": lambda l: True,
         "trusted_base": ["translator_c15 (Go AST -> decoder IR); its output is tied behaviourally: the IR interpreter and the real "
@@ -417,7 +422,10 @@ PROPS = {
                          "pinned by the sha256 of both functions in the generated file",
                          "opaque post-processing calls (NewShapeIndex, index.Add, initBound, initLoopProperties, initEdgesAndIndex, "
                          "CellFromCellID, ExpandForSubregions, facePiQitoXYZ, nthDerivativeCoder) are assumed not to touch the decoder; "
-                         "their panics are visible only to the child-process half",
+                         "their panics are visible only to the child-process half; for the polygon accessors this is now a THEOREM about the decoded "
+                         "value (Properties/C15_Usable.lean: decodePolygon_usable — every byte string a decoder accepts yields a value whose Edge / Chain / "
+                         "ChainPosition / ChainEdge return on all in-range arguments, both search paths, zero-vertex loops anywhere; reencode_succeeds); "
+                         "that the Go state after Decode is initEdgesAndIndex of the decoded loops is checked by op c15shape, not proved",
                          "element sizes (Point 24, CellID 8, *Loop 8, faceRun 16, Loop 112) and the append growth charge (8 x element) "
                          "are constants of the translator / model",
                          "CellID.IsValid is the IR primitive cellIDValid, evaluated with S2.CellID.isValid and treated as an unknown "
